@@ -35,6 +35,9 @@ type c15call struct {
 type c15scenario struct {
 	Name       string      `json:"name"`
 	Goroutines [][]c15call `json:"goroutines"`
+	// Reopen > 0: the workbook is saved and reopened (no worksheet decoded yet) and the goroutines make the first
+	// touches; repeated that many times, each on a freshly opened workbook
+	Reopen int `json:"reopen,omitempty"`
 }
 
 var c15pic = func() []byte {
@@ -162,6 +165,7 @@ type c15result struct {
 	Cells   map[string]string `json:"cells"`   // sheet!cell -> raw value after all calls
 	StyleOK []string          `json:"style_ok"` // mismatches between a handed-out id and the style it denotes
 	Hung    bool              `json:"hung"`
+	Lost    []string          `json:"lost"` // first-touch rounds: writes missing after all goroutines finished
 }
 
 // worker: vh worker c15 <scenario.json> <out.json>
@@ -174,51 +178,92 @@ func c15Worker(args []string) {
 	if err := json.Unmarshal(data, &sc); err != nil {
 		fatal("c15 worker: %v", err)
 	}
-	f := excelize.NewFile()
-	f.NewSheet("S2")
-	for r := 1; r <= 6; r++ {
-		f.SetCellValue("Sheet1", "Z"+strconv.Itoa(r), "seed-"+strconv.Itoa(r))
-		f.SetCellValue("S2", "Z"+strconv.Itoa(r), r)
+	base := excelize.NewFile()
+	base.NewSheet("S2")
+	nseed := 6
+	if sc.Reopen > 0 {
+		nseed = 4000 // decoding takes long enough for first touches to overlap
+	}
+	for r := 1; r <= nseed; r++ {
+		base.SetCellValue("Sheet1", "Z"+strconv.Itoa(r), "seed-"+strconv.Itoa(r))
+		base.SetCellValue("S2", "Z"+strconv.Itoa(r), r)
 	}
 	res := c15result{Cells: map[string]string{}}
-	var mu sync.Mutex
-	var wg sync.WaitGroup
-	start := make(chan struct{})
-	for _, g := range sc.Goroutines {
-		wg.Add(1)
-		go func(calls []c15call) {
-			defer wg.Done()
-			defer func() {
-				if r := recover(); r != nil {
+	var packed []byte
+	if sc.Reopen > 0 {
+		var buf bytes.Buffer
+		base.Write(&buf)
+		packed = buf.Bytes()
+	}
+	rounds := sc.Reopen
+	if rounds == 0 {
+		rounds = 1
+	}
+	var f *excelize.File
+	for round := 0; round < rounds; round++ {
+		f = base
+		if sc.Reopen > 0 {
+			g, err := excelize.OpenReader(bytes.NewReader(packed))
+			if err != nil {
+				fatal("c15 worker: reopen: %v", err)
+			}
+			f = g
+		}
+		var mu sync.Mutex
+		var wg sync.WaitGroup
+		start := make(chan struct{})
+		for _, g := range sc.Goroutines {
+			wg.Add(1)
+			go func(calls []c15call) {
+				defer wg.Done()
+				defer func() {
+					if r := recover(); r != nil {
+						mu.Lock()
+						res.Panics = append(res.Panics, fmt.Sprint(r))
+						mu.Unlock()
+					}
+				}()
+				<-start
+				for _, cl := range calls {
+					out, err := c15Do(f, cl)
 					mu.Lock()
-					res.Panics = append(res.Panics, fmt.Sprint(r))
+					if err != nil {
+						res.Errors = append(res.Errors, cl.Fn+": "+err.Error())
+					}
+					if out != "" {
+						res.Styles = append(res.Styles, out)
+					}
 					mu.Unlock()
 				}
-			}()
-			<-start
-			for _, cl := range calls {
-				out, err := c15Do(f, cl)
-				mu.Lock()
-				if err != nil {
-					res.Errors = append(res.Errors, cl.Fn+": "+err.Error())
+			}(g)
+		}
+		close(start)
+		done := make(chan struct{})
+		go func() { wg.Wait(); close(done) }()
+		select {
+		case <-done:
+		case <-time.After(60 * time.Second):
+			res.Hung = true
+			out, _ := json.Marshal(res)
+			os.WriteFile(args[1], out, 0o644)
+			os.Exit(3)
+		}
+		if sc.Reopen > 0 {
+			res.Styles = nil // ids are per workbook: the style oracle applies to the single-workbook scenarios
+		}
+		if sc.Reopen > 0 && round < rounds-1 {
+			// a lost write in any round is a failure: check the singly written cells now
+			for _, g := range sc.Goroutines {
+				for _, cl := range g {
+					if want, ok := c15Expected(cl); ok {
+						if v, _ := f.GetCellValue(cl.Sheet, cl.Cell, excelize.Options{RawCellValue: true}); v != want {
+							res.Lost = append(res.Lost, fmt.Sprintf("round %d: %s(%s!%s) wrote %q but the cell holds %q", round, cl.Fn, cl.Sheet, cl.Cell, want, v))
+						}
+					}
 				}
-				if out != "" {
-					res.Styles = append(res.Styles, out)
-				}
-				mu.Unlock()
 			}
-		}(g)
-	}
-	close(start)
-	done := make(chan struct{})
-	go func() { wg.Wait(); close(done) }()
-	select {
-	case <-done:
-	case <-time.After(60 * time.Second):
-		res.Hung = true
-		out, _ := json.Marshal(res)
-		os.WriteFile(args[1], out, 0o644)
-		os.Exit(3)
+			f.Close()
+		}
 	}
 	// final observation (sequential)
 	for _, g := range sc.Goroutines {
@@ -367,7 +412,25 @@ func (c *Ctx) c15Scenarios() []c15scenario {
 			sc.Goroutines = append(sc.Goroutines, calls)
 		}
 		out = append(out, sc)
+		// and as first touches of a freshly opened workbook (no worksheet decoded yet), distinct cells, few calls
+		ft := c15scenario{Name: "flagged by the lock table, first touches: " + pr[0] + " || " + pr[1], Reopen: 25}
+		for g := 0; g < 4; g++ {
+			ft.Goroutines = append(ft.Goroutines, []c15call{mk(specOf(pr[g%2]), g, 0), mk("SetCellInt", g, 1)})
+		}
+		out = append(out, ft)
 		c.R.Dist["lock-table-flagged-pairs"]++
+	}
+	// 1c. first touches of a freshly opened workbook by a setter and each getter/accessor
+	for _, other := range []string{"GetCellValue", "GetColWidth", "GetColVisible", "GetColStyle", "GetCellStyle", "SetColVisible", "SetColWidth", "AddDataValidation", "Rows", "SetCellStyle"} {
+		ft := c15scenario{Name: "first touches: SetCellInt || " + other, Reopen: 6}
+		for g := 0; g < 4; g++ {
+			spec := "SetCellInt"
+			if g%2 == 1 {
+				spec = other
+			}
+			ft.Goroutines = append(ft.Goroutines, []c15call{mk(spec, g, 0), mk("SetCellInt", g, 1)})
+		}
+		out = append(out, ft)
 	}
 	// 2. random mixes, 2..32 goroutines, shared and distinct cells, two sheets
 	n := 6
@@ -538,6 +601,11 @@ func (c *Ctx) c15Stress() {
 			seenRace[key] = true
 			full := map[string]interface{}{"scenario": o.sc, "race_report": m[1]}
 			c.Fail("oracle", "C15_race_free", full, fmt.Sprintf("data race %s (scenario %q)", key, o.sc.Name), "c15-race "+key)
+		}
+		for i, l := range o.res.Lost {
+			if i < 2 {
+				c.Fail("oracle", "C15_linearizable", map[string]interface{}{"scenario": o.sc}, o.sc.Name+": "+l, "")
+			}
 		}
 		for _, s := range o.res.StyleOK {
 			c.Fail("oracle", "C15_linearizable", desc, o.sc.Name+": "+s, "")
